@@ -2,7 +2,7 @@ package main
 
 import "math"
 
-func nan() float64                      { return math.NaN() }
+func nan() float64                     { return math.NaN() }
 func float64frombits(u uint64) float64 { return math.Float64frombits(u) }
 
 func inf() float64 { return math.Inf(1) }
